@@ -1,6 +1,115 @@
-//! C12 — not implemented yet.
+//! C12 — lerp is affine with exact endpoints; nlerp and slerp stay on the unit sphere.
+
+pub mod floats;
+pub mod generic;
+pub mod ints;
+pub mod quat;
+pub mod util;
+pub mod xform;
+
 use vkit::*;
 
+fn i8_core(i: u64, cx: &mut Cx) -> CaseResult {
+    ints::sweep8::<i8>(i, &ints::CORE, cx)
+}
+fn u8_core(i: u64, cx: &mut Cx) -> CaseResult {
+    ints::sweep8::<u8>(i, &ints::CORE, cx)
+}
+fn i8_full(i: u64, cx: &mut Cx) -> CaseResult {
+    ints::sweep8::<i8>(i, &ints::full_grid(), cx)
+}
+fn u8_full(i: u64, cx: &mut Cx) -> CaseResult {
+    ints::sweep8::<u8>(i, &ints::full_grid(), cx)
+}
+
 pub fn property() -> Property {
-    Property { id: "C12", rule: "", assumptions: &[], checks: Vec::new(), max_discard_frac: 0.2 }
+    let mut checks = Vec::new();
+    macro_rules! tape {
+        ($name:expr, $about:expr, $len:expr, $q:expr, $th:expr, $f:expr) => {
+            checks.push(Check { name: $name, about: $about, kind: Kind::Tape { len: $len, quick: $q, thorough: $th, f: $f } });
+        };
+    }
+    macro_rules! index {
+        ($name:expr, $about:expr, $total:expr, $q:expr, $th:expr, $f:expr) => {
+            checks.push(Check { name: $name, about: $about, kind: Kind::Index { total: $total, quick: $q, thorough: $th, f: $f } });
+        };
+    }
+
+    // --- integers ---------------------------------------------------------------------------------
+    let sweep = "integer Lerp<f32>/Lerp<f64>, value and &, lerp_unclamped / lerp_unclamped_precise / lerp / lerp_precise and their *_inclusive_range spellings (32 calls per point): result == round-half-away-from-zero of the exact from + t(to-from) (i128) whenever that is representable in the type; a panic is a failure";
+    let core_total = 65536 * ints::CORE.len() as u64;
+    let full_total = 65536 * 49u64;
+    index!("int8-core-i8", sweep, core_total, core_total, core_total, i8_core);
+    index!("int8-core-u8", sweep, core_total, core_total, core_total, u8_core);
+    index!("int8-full-i8", sweep, full_total, 150_000, full_total, i8_full);
+    index!("int8-full-u8", sweep, full_total, 150_000, full_total, u8_full);
+    let wide = "wider integer types on stratified endpoints the factor's float type represents exactly (limits, small, 2^k+-1, random, snapped to the significand width), dyadic factors k/16: same oracle, asserted when every intermediate of the documented float formula is exact";
+    tape!("int-wide-i16", wide, 64, 6_000, 300_000, ints::wide::<i16>);
+    tape!("int-wide-u16", wide, 64, 6_000, 300_000, ints::wide::<u16>);
+    tape!("int-wide-i32", wide, 64, 6_000, 300_000, ints::wide::<i32>);
+    tape!("int-wide-u32", wide, 64, 6_000, 300_000, ints::wide::<u32>);
+    tape!("int-wide-i64", wide, 64, 6_000, 300_000, ints::wide::<i64>);
+    tape!("int-wide-u64", wide, 64, 6_000, 300_000, ints::wide::<u64>);
+    tape!("int-wide-isize", wide, 64, 6_000, 300_000, ints::wide::<isize>);
+    tape!("int-wide-usize", wide, 64, 6_000, 300_000, ints::wide::<usize>);
+    tape!("vec-int", "Lerp for Rgba<u8> (f32 factor) and Vec3<i32> (f64 factor), value and &: every lane is the rounded exact value; inherent Vec3<i32>::lerp* with integer scalar / per-lane factor is the exact affine map", 64, 10_000, 300_000, ints::vec_int);
+
+    // --- generic code in exact arithmetic ------------------------------------------------------------
+    let vr = "Rat lanes: inherent lerp / lerp_unclamped / lerp_precise / lerp_unclamped_precise with scalar and per-lane factor, Lerp for V and &V incl. all *_inclusive_range forms: lane i == from_i + f_i (to_i - from_i) exactly (f clamped to [0,1] for the clamped forms); f(t)-f(s) = (t-s)(to-from); factor 0 / 1 (and per-lane 0/1 patterns) give the ends exactly";
+    tape!("vec2-rat", vr, 96, 2_000, 100_000, generic::vec2_rat);
+    tape!("vec3-rat", vr, 128, 2_000, 100_000, generic::vec3_rat);
+    tape!("vec4-rat", vr, 160, 2_000, 100_000, generic::vec4_rat);
+    tape!("vec8-rat", vr, 288, 1_500, 100_000, generic::vec8_rat);
+    tape!("rgb-rat", vr, 128, 1_500, 100_000, generic::rgb_rat);
+    tape!("rgba-rat", vr, 160, 1_500, 100_000, generic::rgba_rat);
+    tape!("extent2-rat", vr, 96, 1_500, 100_000, generic::extent2_rat);
+    tape!("extent3-rat", vr, 128, 1_500, 100_000, generic::extent3_rat);
+    tape!("uv-rat", vr, 96, 1_000, 100_000, generic::uv_rat);
+    tape!("uvw-rat", vr, 128, 1_000, 100_000, generic::uvw_rat);
+    tape!("scalar-rat", "the Lerp trait's provided methods (clamped forms, *_inclusive_range forms) on an exact scalar implementor, value and &: all 16 spellings == from + f (to - from) with f clamped where the name says so", 32, 4_000, 200_000, generic::scalar_rat);
+
+    // --- float impls -----------------------------------------------------------------------------------
+    let fs = "float Lerp impl, value and &: lerp*(..,0) == from, precise (..,1) == to exactly, fast (..,1) within 2 eps max(|from|,|to|); every form within 2 eps (|from|+|to|)(1+|t|) of the exact from+t(to-from) (double-double reference); |fast-precise| within the sum of the bounds; clamped == unclamped at clamp01(t), & and *_inclusive_range forms bit-identical to the value forms";
+    tape!("scalar-f32", fs, 64, 10_000, 1_000_000, floats::scalar_f32);
+    tape!("scalar-f64", fs, 64, 10_000, 1_000_000, floats::scalar_f64);
+    let fv = "Vec4/Rgba/Vec3 of floats: inherent (scalar and per-lane factor) and Lerp trait forms (value, &, range), every lane within the derived bound of the exact value; exact ends";
+    tape!("vec-f32", fv, 128, 5_000, 300_000, floats::vec_f32);
+    tape!("vec-f64", fv, 128, 5_000, 300_000, floats::vec_f64);
+
+    // --- quaternions -----------------------------------------------------------------------------------
+    tape!("quat-rat", "Quaternion<Rat>: the four *_unnormalized forms are the exact component lerp; nlerp (Lerp for Quaternion and &Quaternion) of exactly unit rational quaternions returns the ends exactly at 0 / 1 and beyond when clamped", 48, 4_000, 200_000, quat::quat_rat);
+    let nl = "Lerp for Quaternion / &Quaternion (nlerp): result is unit and equals the normalized component lerp (tolerance conditioned on its length; the 0/0 midpoint of antipodal inputs is excluded), ends, clamped == unclamped at clamp01(t), &/range forms bit-identical; *_unnormalized forms == component lerp";
+    tape!("nlerp-f32", nl, 96, 10_000, 500_000, quat::nlerp_f32);
+    tape!("nlerp-f64", nl, 96, 10_000, 500_000, quat::nlerp_f64);
+    let sl = "slerp of unit quaternions (random, rational S^3 points, identical / antipodal / tiny-angle / nearly antipodal / nearly orthogonal pairs): result unit; equals the point at angle t*theta from `from` on the shorter arc (theta = angle to the representative of `to` with non-negative dot); angle(from,r) = |t| theta and angle(r,+-to) = |1-t| theta for theta >= 1e-3; slerp(0) = from, slerp(1) = +-to; clamped form; Slerp trait (value, &) == inherent";
+    tape!("slerp-f32", sl, 96, 20_000, 1_000_000, quat::slerp_f32);
+    tape!("slerp-f64", sl, 96, 20_000, 1_000_000, quat::slerp_f64);
+    let th = "targets at angles just below / just above the near-parallel switch (cos > 1 - eps => nlerp): both results unit and on the arc, and they differ by no more than the targets do + 1e-6";
+    tape!("slerp-switch-f32", th, 96, 5_000, 300_000, quat::thresh_f32);
+    tape!("slerp-switch-f64", th, 96, 5_000, 300_000, quat::thresh_f64);
+    tape!("slerp-mixed-factor", "Slerp<f32> for Quaternion<f64> and &Quaternion<f64>: the factor goes through Into, clamped form clamps", 96, 2_000, 100_000, quat::slerp_mixed);
+
+    // --- Transform, Transition ---------------------------------------------------------------------------
+    let tf = "Lerp for Transform and &Transform, fast / precise / clamped / range forms: == (lerp position, slerp orientation, lerp scale) with the pieces called directly, and against the independent oracle (exact component lerp, reference slerp); ends";
+    tape!("transform-f32", tf, 160, 5_000, 300_000, xform::transform_f32);
+    tape!("transform-f64", tf, 160, 5_000, 300_000, xform::transform_f64);
+    tape!("transform-probe", "Transform over recording elements: every position / scale lane is produced by the fast resp. precise, value resp. & Lerp method of that same lane of the two positions / scales, in (a, b) order, at the (clamped) factor; orientation is slerp_unclamped of the orientations; Transform<i32,f64,i32> with f32 factor", 96, 4_000, 200_000, xform::transform_probe);
+    let tr = "Transition: current / current_unclamped / current_precise / current_unclamped_precise and the four into_current* == the corresponding Lerp::lerp* of (start, end) at mapper(progress), for IdentityProgressMapper, ProgressMapperFn(t^2), ProgressMapperFn(1-t) and a user mapper; recording elements pin down method, operand order and factor; with_mapper, with_mapper_and_progress, into_range, From<Range>, Default, LinearTransition::new / with_progress, ProgressMapperFn::default / From<fn>";
+    tape!("transition-rat", tr, 96, 4_000, 200_000, xform::transition_rat);
+    tape!("transition-float", tr, 192, 4_000, 200_000, xform::transition_float);
+
+    Property {
+        id: "C12",
+        rule: "integer impls: index = (factor k/16, from, to) enumerated exhaustively over all 2^16 pairs of i8 and of u8 at the 9 core factors (quick) / all 49 factors k in -16..=32 (thorough; a seeded sample of it in quick); everything else: byte tapes generated by proptest (uniform bytes, fixed seed) decoded to endpoints and factors (factor classes: 0, 1, 1/2, outside [0,1], random). A case is non-trivial when from != to (every lane / member) and the factor is neither 0 nor 1 (integers: additionally labelled tie / range-limit endpoint / to<from; vectors: the per-lane factor is not constant; slerp: theta >= 1e-3 and the arc choice is not ambiguous); distinct = distinct index resp. consumed tape prefix per check",
+        assumptions: &[
+            "rustc and the proptest runner/shrinker are trusted; the harness is built with overflow-checks and debug-assertions on, a panic inside vek is a failure",
+            "integer oracle: i128 arithmetic on sixteenths, round half away from zero; dyadic factors k/16 are exact in f32 and f64; asserted only when the exact result is representable in the integer type and (wider types) every intermediate of the documented formula is exactly representable in the factor's float type, so the only rounding is the final round-to-integer",
+            "exact arithmetic for generic code: vkit::Rat (i128 rationals; its two required Lerp methods are harness code, the provided methods under test are vek's)",
+            "float oracle: double-double evaluation of from + t(to-from) (error O(eps^2)); bounds derived from the documented formulas from + t(to-from) and from(1-t) + to t with at most 3 roundings",
+            "quaternion oracle on plain f64 arrays: angle = 2 atan2(|u-v|, |u+v|), slerp weights sin((1-t)theta)/sin(theta), sin(t theta)/sin(theta); inputs are unit to rounding of the scalar type; tolerance 16 eps (1+|t|)^3; pairs with |dot| < 64 eps have no unique shorter arc and only unit-ness and the ends are asserted there; nlerp is not asserted where the component lerp is shorter than 1e-3 (the midpoint of antipodal inputs is 0/0)",
+            "Transform / Transition differential checks call vek's Lerp / Slerp impls of the members (themselves judged by the other checks of this property); Probe elements record the invoked required method, operands and factor",
+        ],
+        checks,
+        max_discard_frac: 0.2,
+    }
 }
